@@ -44,6 +44,16 @@ Proof.
   repeat constructor; cbn; try exact I; try (vm_compute; reflexivity); intros []; try discriminate; auto.
 Qed.
 
+Theorem C04_count_column_exact :
+  forall s ops c col, (length s <= 1000)%nat -> Forall op_ok ops -> valid_cond c ->
+  let st := grun s ops in
+  count_column norm st c col =
+  N.of_nat (length (filter (non_null_at col) (filter (evaluate c) (live (tbl st))))).
+Proof.
+  intros s ops c col Hs Hok Hc. destruct (good_run s ops Hs Hok) as (Hi & Hv & _).
+  exact (count_column_exact _ c col Hi Hv Hc).
+Qed.
+
 (* Index completeness: on every reachable state every hash / ordered index holds exactly the live
    rows, each filed once under (a key equivalent to) its current key. *)
 Theorem C04_index_invariant :
@@ -97,6 +107,7 @@ Theorem C04_delete_exact :
 Proof. exact delete_exact. Qed.
 
 Print Assumptions C04_every_strategy_exact.
+Print Assumptions C04_count_column_exact.
 Print Assumptions C04_index_invariant.
 Print Assumptions C04_recheck_exact.
 Print Assumptions C04_hash_key_respects_eq.
